@@ -547,11 +547,21 @@ func init() {
 		if r.viper == nil {
 			r.viper = map[string]Value{}
 		}
-		r.viper[args[0].(string)] = args[1]
+		r.viper[strings.ToLower(args[0].(string))] = args[1] // viper keys are case-insensitive
 		return nil
 	}, "github.com/spf13/viper.Set")
 	reg(func(r *Run, fr *frame, args []Value) Value {
-		key := args[0].(string)
+		if v, ok := r.viper[strings.ToLower(args[0].(string))]; ok {
+			return v
+		}
+		return Iface{}
+	}, "github.com/spf13/viper.Get")
+	reg(func(r *Run, fr *frame, args []Value) Value {
+		_, ok := r.viper[strings.ToLower(args[0].(string))]
+		return r.tt.Bool(ok)
+	}, "github.com/spf13/viper.IsSet")
+	reg(func(r *Run, fr *frame, args []Value) Value {
+		key := strings.ToLower(args[0].(string))
 		dst, _ := args[1].(Iface)
 		if v, ok := r.viper[key]; ok {
 			if iv, ok := v.(Iface); ok && iv.T != nil && dst.T != nil {
